@@ -22,6 +22,7 @@ use regex_syntax::hir::{self, Hir};
 use serde::{Deserialize, Serialize};
 use serde_json::{json, Value};
 
+mod extract;
 mod refdfa;
 mod render;
 
@@ -658,6 +659,12 @@ fn main() {
         Some("hash") => hash_mode(&args[2], &args[3], args[4].parse().unwrap()),
         Some("strip") => strip_mode(&args[2], &args[3]),
         Some("clicheck") => clicheck_mode(&args[2], &args[3]),
+        Some("extract") => {
+            let mut f = std::fs::File::create(&args[2]).unwrap();
+            for v in extract::extract(&args[3..]) {
+                writeln!(f, "{}", v).unwrap();
+            }
+        }
         _ => {
             eprintln!("usage: gen capture|hash|strip ...");
             std::process::exit(2);
